@@ -640,38 +640,34 @@ impl Mass for Locomotive {
         );
 
         let derived_mass = self.derived_mass().with_context(|| format_dbg!())?;
-        self.mass = match new_mass {
-            // Set using provided `new_mass`, setting constituent mass fields to `None` to match if inconsistent
-            Some(new_mass) => {
-                if let Some(dm) = derived_mass {
-                    if dm != new_mass {
-                        #[cfg(feature = "logging")]
-                        log::warn!(
-                            "Derived mass does not match provided mass, setting `{}` consituent mass fields to `None`",
-                            stringify!(Locomotive));
-                        self.expunge_mass_fields();
-                    }
-                }
-                Some(new_mass)
-            }
+        // Work out everything that can fail before changing anything
+        let mass = match new_mass {
+            Some(new_mass) => new_mass,
             // Set using `derived_mass()`, failing if it returns `None`
-            None => Some(derived_mass.with_context(|| {
+            None => derived_mass.with_context(|| {
                 format!(
                     "Not all mass fields in `{}` are set and no mass was provided.",
                     stringify!(Locomotive)
                 )
-            })?),
+            })?,
         };
+        let mu = self
+            .mu
+            .with_context(|| format!("{}\nExpected `mu` to be set", format_dbg!()))?;
+        // Set using provided `new_mass`, setting constituent mass fields to `None` to match if inconsistent
+        if let Some(dm) = derived_mass {
+            if dm != mass {
+                #[cfg(feature = "logging")]
+                log::warn!(
+                    "Derived mass does not match provided mass, setting `{}` consituent mass fields to `None`",
+                    stringify!(Locomotive));
+                self.expunge_mass_fields();
+            }
+        }
+        self.mass = Some(mass);
         #[cfg(feature = "logging")]
         log::info!("Updating `force_max` to correspond to new mass.");
-        self.force_max = self
-            .mu()
-            .with_context(|| format_dbg!())?
-            .with_context(|| format!("{}\nExpected `mu` to be set", format_dbg!()))?
-            * self
-                .mass()?
-                .with_context(|| format!("{}\nExpected `mass` to be set", format_dbg!()))?
-            * uc::ACC_GRAV;
+        self.force_max = mu * mass * uc::ACC_GRAV;
         Ok(())
     }
 
@@ -706,19 +702,14 @@ impl Locomotive {
         force_max: si::Force,
         side_effect: ForceMaxSideEffect,
     ) -> anyhow::Result<()> {
-        self.force_max = force_max;
         match side_effect {
-            ForceMaxSideEffect::Mass => self
-                .set_mass(
-                    Some(
-                        force_max
-                            / (self.mu().with_context(|| format_dbg!())?.with_context(|| {
-                                format_dbg!("Expected traction coefficient to be set.")
-                            })? * uc::ACC_GRAV),
-                    ),
-                    MassSideEffect::None,
-                )
-                .with_context(|| format_dbg!())?,
+            ForceMaxSideEffect::Mass => {
+                let mu = self
+                    .mu
+                    .with_context(|| format_dbg!("Expected traction coefficient to be set."))?;
+                self.set_mass(Some(force_max / (mu * uc::ACC_GRAV)), MassSideEffect::None)
+                    .with_context(|| format_dbg!())?;
+            }
             ForceMaxSideEffect::UpdateMu => {
                 self.mu = self.mass.map(|mass| force_max / (mass * uc::ACC_GRAV))
             }
@@ -733,6 +724,7 @@ impl Locomotive {
                 self.mass = None;
             }
         }
+        self.force_max = force_max;
         Ok(())
     }
 
@@ -1153,21 +1145,28 @@ impl Locomotive {
     }
 
     pub fn set_mu(&mut self, mu: si::Ratio, mu_side_effect: MuSideEffect) -> anyhow::Result<()> {
-        self.mu = Some(mu);
         match mu_side_effect {
-            MuSideEffect::Mass => self.set_mass(
-                Some(self.force_max / (mu * uc::ACC_GRAV)),
-                MassSideEffect::None,
-            ),
+            MuSideEffect::Mass => {
+                let mu_prev = self.mu.replace(mu);
+                let res = self.set_mass(
+                    Some(self.force_max / (mu * uc::ACC_GRAV)),
+                    MassSideEffect::None,
+                );
+                if res.is_err() {
+                    self.mu = mu_prev;
+                }
+                res
+            }
             MuSideEffect::ForceMax => {
-                self.force_max = mu
-                    * uc::ACC_GRAV
-                    * self
-                        .mass()?
-                        .with_context(|| format_dbg!("Expected `mass` to be Some."))?;
+                let mass = self
+                    .mass()?
+                    .with_context(|| format_dbg!("Expected `mass` to be Some."))?;
+                self.mu = Some(mu);
+                self.force_max = mu * uc::ACC_GRAV * mass;
                 Ok(())
             }
             MuSideEffect::SetMassToNone => {
+                self.mu = Some(mu);
                 self.mass = None;
                 Ok(())
             }
